@@ -221,7 +221,9 @@ def stepping_rules(OB, prog, eff, prim):
                 return out
             for _b, c in ordered:
                 st = [unref(x) for i, x in enumerate(c.args()) if i + 1 not in (pw, cand[0][1] if cand else -1)]
-                if prev is not None and borrowed_state(c) and borrowed_state(c) == borrowed_state(prev) and len(st) == 1:
+                if prev is not None and borrowed_state(c) and borrowed_state(c) == borrowed_state(prev) and len(st) == len(borrowed_state(c)):
+                    # every state argument is `&mut` of the same local(s) as in the previous pass (one state object, or the cursors and the
+                    # remaining count handed over one by one)
                     prev = c
                     continue
                 if prev is not None:
